@@ -1977,7 +1977,8 @@ class FlowIR(object):
             for platform in environments:
                 platform_environments = environments[platform] or {}
 
-                for name in list(platform_environments.keys()):
+                # VV: sorted so that when two names differ only in case the winner does not depend on the order of the document
+                for name in sorted(platform_environments.keys()):
                     if name != name.lower():
                         platform_environments[name.lower()] = platform_environments[name]
                         del platform_environments[name]
